@@ -781,6 +781,97 @@ def F36_syst_zero_weight_last():
                                           "(index of the zero-weight last particle must not appear)"}
 
 
+# ---------------------------------------------------------------- C01 / F35
+def F35_default_trim_bias():
+    """C01 clause audit: the DEFAULT `posterior()` (trim_importance_weights=True, ess_trim=0.99) drops every sample whose weight is
+    below a percentile threshold — the tails — and renormalises: it returns the self-normalised estimator of the posterior RESTRICTED
+    to {w >= theta} (Props.C01.C01_trimmed_estimate_is_restricted_ratio / C01_trimmed_estimator_targets_restriction), whose error does
+    not shrink with the particle count.  Witness: 1-D Gaussian posterior N(0, 0.25) under U(-5, 5), both kernels, 15 fixed seeds each:
+    in EVERY run the variance from the default call is below the variance from `trim_importance_weights=False` computed from the
+    very same history (sign test: 30 of 30, p = 2^-30 < 1e-9) by 3-5 % (the same -4.5 % at n_particles 64 and 128: it does not
+    shrink with N), whatever the untrimmed value is."""
+    from tempest import Sampler
+
+    def var(x, w):
+        m = float(np.sum(w * x[:, 0]))
+        return float(np.sum(w * (x[:, 0] - m) ** 2))
+    rel, untrimmed, trimmed = [], [], []
+    st = np.random.get_state()
+    try:
+        for kernel in ("tpcn", "rwm"):
+            for seed in range(15):
+                with _quiet(), warnings.catch_warnings():
+                    warnings.simplefilter("ignore")
+                    s = Sampler(lambda u: 10.0 * u - 5.0, lambda x: -0.5 * float(x[0] ** 2) / 0.25, 1, n_particles=32, sample=kernel,
+                                clustering=False, random_state=3500 + seed)
+                    s.run(n_total=128, progress=False)
+                    x1, w1, _ = s.posterior()
+                    x0, w0, _ = s.posterior(trim_importance_weights=False)
+                v1, v0 = var(x1, w1), var(x0, w0)
+                rel.append(v1 / v0 - 1.0)
+                trimmed.append(v1)
+                untrimmed.append(v0)
+    finally:
+        np.random.set_state(st)
+    n_below = sum(1 for r in rel if r < 0)
+    mean_rel = float(np.mean(rel))
+    se0 = float(np.std(untrimmed, ddof=1) / np.sqrt(len(untrimmed)))
+    fails = n_below == len(rel) and mean_rel < -0.02          # 30/30: p = 2^-30 = 9.3e-10
+    return {"fails": bool(fails),
+            "detail": (f"N(0,0.25) posterior, n_particles=32, n_total=128, tpcn+rwm x 15 seeds: default posterior() variance below the "
+                       f"untrimmed one in {n_below}/{len(rel)} runs (p = 2^-{len(rel)}), mean shortfall {100 * mean_rel:.1f} % "
+                       f"(range {100 * min(rel):.1f} .. {100 * max(rel):.1f} %); ensemble means: trimmed {np.mean(trimmed):.4f}, "
+                       f"untrimmed {np.mean(untrimmed):.4f} +- {se0:.4f}, truth 0.2500")}
+
+
+# ---------------------------------------------------------------- C01 / F39
+def F39_position_labels_break_invariance():
+    """C01 clause audit ("with and without clustering"): with clustering every walker uses, for the whole mutation, the proposal mode
+    of the cluster label of its STARTING point (`Resampler.run`: assignments = clusterer.predict(u_resampled); never updated in
+    `BaseMCMCRunner.run`).  Each per-mode kernel is reversible for any FIXED assignment (C03), but the composition
+    resample -> predict(u) -> mutate, i.e. a kernel chosen by the label of the point it starts from, is invariant only if moves
+    never change label (Props.C01.C01_label_kernel_invariant_of_no_crossing; counter-example C01_label_kernel_not_invariant).
+    Witness on the real runners: uniform target on [0,1] (every in-cube proposal accepted), two modes (means .25/.75, variances
+    4e-4 / 4e-2, nu = 5), sigma = 0.5, labels = (u > 0.5) as `predict` assigns them for two abutting clusters, N = 60000 exact
+    uniform draws, ONE step: the 20-bin histogram leaves the uniform law (mass flows from the wide cluster's region into the narrow
+    one's); with labels that do not depend on the position (C03's setting) it stays uniform."""
+    from tempest.modes import ModeStatistics
+    from tempest.mcmc import RWMRunner, TPCNRunner
+    from . import c03
+    n = 60000
+    res = {}
+    st = np.random.get_state()
+    try:
+        for kernel, cls in (("rwm", RWMRunner), ("tpcn", TPCNRunner)):
+            for label in ("position", "index"):
+                rs = np.random.RandomState(35035)
+                u = rs.rand(n, 1)
+                ms = ModeStatistics(np.array([[0.25], [0.75]]), np.array([[[0.0004]], [[0.04]]]), np.array([5.0, 5.0]))
+                assign = (u[:, 0] > 0.5).astype(int) if label == "position" else (np.arange(n) % 2)
+                runner = cls(u, u.copy(), np.zeros(n), None, assign, 1.0, ms, lambda x: (np.zeros(len(x)), None), lambda t: t, None,
+                             1, 1, None, None)
+                runner._check_convergence = lambda a: True
+                runner._adapt_sigma = lambda c, a: None
+                runner.sigmas[:] = 0.5
+                with warnings.catch_warnings():
+                    warnings.simplefilter("ignore")
+                    with common.patched(np.random, "gamma", rs.gamma), common.patched(np.random, "randn", rs.randn), \
+                            common.patched(np.random, "rand", rs.rand):
+                        out = runner.run()
+                v = np.asarray(out[0])[:, 0]
+                h = np.histogram(v, bins=np.linspace(0.0, 1.0, 21))[0]
+                e = n / 20.0
+                res[(kernel, label)] = (float(np.sum((h - e) ** 2 / e)), float(np.mean(v < 0.5)))
+    finally:
+        np.random.set_state(st)
+    thr = c03.chi2_threshold()
+    fails = all(res[(k, "position")][0] > thr and res[(k, "index")][0] <= thr for k in ("rwm", "tpcn"))
+    return {"fails": bool(fails),
+            "detail": "; ".join(f"{k}: labels by position chi2={res[(k, 'position')][0]:.0f} (mass in [0,.5) {res[(k, 'position')][1]:.4f}), "
+                                f"labels by index chi2={res[(k, 'index')][0]:.0f}" for k in ("rwm", "tpcn"))
+                      + f"; threshold {thr:.1f} = p<1e-9, 19 dof, N=60000, one step from exact uniform draws, seed 35035"}
+
+
 ALL = {k: v for k, v in list(globals().items()) if k[:1] == "F" and callable(v)}
 
 if __name__ == "__main__":
